@@ -42,6 +42,9 @@ EXPLANATION += ' A64-CFR-BITS, RV-CFR-BITS.'
 EXPLANATION += ' LW-POS-EXEC, RVV-RT-GENINPUT, A64-RT-CALLDEST, VM-INITORDER, X86-ISA-BASE.'
 
 
+CLAIM += (' The dataset read of a compiled x86-64 program - the bytes the prologue generator emits for readReg2 ^ readReg3 and the hand-written v1 / v2 / light-mode pieces - executed on terms performs specification 4.6.2 steps 5-8: read at the old ma, mx (v1) or ma (v2) XORed with the zero-extended value, halves swapped, prefetch at the new mx, item number and saved registers in light mode (X86-DSREAD-HSEM).')
+EXPLANATION += ' X86-DSREAD-HSEM.'
+
 def run(ctx, R):
     F = astq.Facts(ctx, 'K0')
     R.saw(config='K0')
@@ -85,6 +88,7 @@ def run(ctx, R):
     aeshw.rule_rvv_jit_vlen(ctx, R)
     x86loop.rule_loopstore(ctx, R)
     x86loop.rule_loopload(ctx, R)
+    x86loop.rule_dsread(ctx, R)
     rtpreserve.rule_store_order(ctx, R, 'a64')
     rtpreserve.rule_store_order(ctx, R, 'rv64')
     a64sem.rule_immhelp(ctx, R)
